@@ -6,7 +6,8 @@ from . import loaders as L
 
 def run(chk):
     thorough = chk.tier == "thorough"
-    chk.mc("Loaders", "MC_Loaders.cfg", required=["ResolveDegree", "DeleteColumn", "CreateJdd"])
+    chk.mc("Loaders", "MC_Loaders.cfg", required=["ResolveDegree", "DeleteColumn", "CreateJdd", "TryCandidate", "Restore"])
+    chk.mc("Loaders", "MC_Loaders_rejectleak.cfg", expect_violation="C06_Law")   # deviation: a rejected candidate input leaves something behind
     if thorough:
         chk.mc("Loaders", "MC_Loaders_big.cfg", required=["ResolveDegree"], timeout=7200)
     chk.mc("Loaders", "MC_Loaders_pinned_reset.cfg", expect_violation="C07_Accumulates")
@@ -35,6 +36,9 @@ def run(chk):
                 f[k - 1] = 1 + (k % 2)
             cs.append({"kind": "delta" if delta else "split", "a": [1, 1], "b": 2, "f": f, "F": 8, "lo": lo, "hi": hi, "target": tgt,
                        "delta": delta, "src": "large-degree"})
+    # crash points: an earlier construction with the same degree function was aborted by its k-th call raising
+    for c0 in [c for c in cs if c.get("src") == "random"][:200 if not thorough else 4000]:
+        cs.append(dict(c0, pre_fault=rng.choice([1, 2, 3, 4, 6]), src="after-abort"))
     traces = [L.execute(c) for c in cs]
     multi = [t for t in traces if len(t.get("steps", [])) > 1]
     if not multi:
